@@ -13,6 +13,7 @@ from symx.core import Engine, SR, noprint
 from symx.arr import sarr
 from symx.npproxy import NPProxy
 from symx.models import FRot, FUniverse, FMerge, FMemUniverse, rotation_matrix_terms, models_selftest, real_universe
+from symx.models import FFileUniverse, MdaFiles, TransModel, FILE_MASSES, file_universe_selftest, write_xyz, write_gro
 from symx.prove import Prover
 from symx.runner import Acc
 from harness.common import bypass_guard, bound, z, fval, isclose
@@ -26,6 +27,11 @@ STUBS = ["MDAnalysis Universe/AtomGroup/Merge -> symx.models (positions getter r
 ASSUMPTIONS = ["float modelled by the reals (MDAnalysis stores float32: rounding is outside the claim)", "masses > 0, quaternions non-zero"]
 OUTSIDE = ["the file writers", "more atoms / frames than the bound"]
 
+
+FUNCTIONS += ["molgri.io.OneMoleculeReader.__init__ / get_molecule (centring of a molecule read from a coordinate file)"]
+STUBS += ["`reader` shapes: MDAnalysis.Universe(path) -> model of file-based readers (XYZ: indexing re-reads the frame and applies the registered "
+          "transformations; GRO: single-frame reader keeps the current time step; copy() keeps the edited time step), differentially self-tested "
+          "against real MDAnalysis on real files over the operation sequences the package uses; element masses -> fixed positive weights"]
 
 def bounds(tier):
     if tier == "quick":
@@ -42,6 +48,10 @@ def shapes(tier, seed):
     out += [{"kind": "center", "n1": a, "n2": b} for a in n1s for b in n2s]
     out += [{"kind": "universe", "n1": a, "n2": b, "frames": f} for a in (1, 2) for b in ((1, 2, 3) if tier == "quick" else (1, 2, 3, 4)) for f in ((1, 2, 3) if tier == "quick" else (1, 2, 3, 4, 5))]
     out.append({"kind": "rotation_lemma", "n1": 0, "n2": 0})
+    # molecules read through the package's reader from coordinate files (the statement's "centred at their centre of mass")
+    for fmt, ff in (("xyz", 1), ("xyz", 2), ("gro", 1)):
+        for (a, b) in ((1, 2), (2, 3)) if tier == "quick" else ((1, 1), (1, 2), (2, 2), (2, 3), (3, 3)):
+            out.append({"kind": "reader", "n1": a, "n2": b, "frames": 2, "fmt": fmt, "file_frames": ff})
     out.sort(key=lambda s: (s["n1"] + s["n2"]) * s.get("frames", 1))
     return out
 
@@ -57,7 +67,7 @@ def _vars(n1, n2, nframes):
 
 
 def run_shape(shape):
-    return {"center": run_center, "pt": run_pt, "rotation_lemma": run_lemma, "universe": run_universe}[shape["kind"]](shape)
+    return {"center": run_center, "pt": run_pt, "rotation_lemma": run_lemma, "universe": run_universe, "reader": run_reader}[shape["kind"]](shape)
 
 
 def run_lemma(shape):
@@ -158,6 +168,133 @@ def run_pt(shape):
         cons = [(f"com[{k},{c}]", com[c] == c0[c] + grid[k][c]) for c in range(3)]
         acc.add(prover.prove_all(path.premises, cons, max_cex=2))
     return acc.result(eng.stats, prover.stats)
+
+
+READER_NAMES = ["C", "H", "O", "N"]
+# weights of the symbolic run: positive, and every partial sum is exact in floating point (the model adds them as floats, the solver as
+# rationals; with 12.011 + 1.008 the two sums differ in the 16th digit and the "centre of mass" of a centred molecule is 1e-16, not 0)
+READER_WEIGHTS = {"C": 12.0, "H": 1.0, "O": 16.0, "N": 14.0}
+
+
+def _reader_files(shape, x1, x2, conv):
+    """two coordinate files: molecule 1 / molecule 2 with the given first frames (a second frame, if any, is a shifted copy)"""
+    n1, n2, fmt, ff = shape["n1"], shape["n2"], shape["fmt"], shape["file_frames"]
+    kind = "single" if fmt == "gro" else "multi"
+    def frames(x):
+        fr = [[[conv(v) for v in r] for r in x]]
+        if ff == 2:
+            fr.append([[conv(v) + 3.0 for v in r] for r in x])
+        return fr
+    return {f"m1.{fmt}": (frames(x1), READER_NAMES[:n1], kind), f"m2.{fmt}": (frames(x2), [READER_NAMES[(i + 1) % 4] for i in range(n2)], kind)}
+
+
+def run_reader(shape):
+    """Molecules as the package reads them: OneMoleculeReader(path) (real) on modelled coordinate files -- an XYZ file with one or two
+    frames (a reader that re-reads a frame when it is indexed) or a GRO file (single-frame reader) -- with SYMBOLIC coordinates, then the real
+    Pseudotrajectory.  Frame k must show molecule 1 centred at its centre of mass and molecule 2's CENTRED reference rotated by row k's
+    quaternion and moved to row k's position."""
+    import molgri.molecules.pts as P
+    import molgri.io as IO
+    n1, n2, nf, fmt = shape["n1"], shape["n2"], shape["frames"], shape["fmt"]
+    x1, x2, _, _, grid = _vars(n1, n2, nf)
+    eng = Engine()
+    prover = Prover(timeout_ms=60000, budget_s=600)
+    acc = Acc(shape)
+    eng.assume_global(*[z3.Sum([g[c] * g[c] for c in range(3, 7)]) > 0 for g in grid])
+    files = _reader_files(shape, x1, x2, lambda v: SR(v))
+    names1, names2 = files[f"m1.{fmt}"][1], files[f"m2.{fmt}"][1]
+
+    def body():
+        with bound(IO, mda=MdaFiles(files, READER_WEIGHTS), trans=TransModel, print=noprint), bound(P, Rotation=FRot, Merge=FMerge, print=noprint, np=NPProxy()):
+            mol1 = IO.OneMoleculeReader(f"m1.{fmt}").get_molecule()
+            mol2 = IO.OneMoleculeReader(f"m2.{fmt}").get_molecule()
+            pt = P.Pseudotrajectory(mol1, mol2, sarr([[SR(v) for v in g] for g in grid]))
+            return [(i, u.atoms.positions.copy(), list(u.atoms.names)) for i, u in pt.generate_pseudotrajectory()]
+
+    def com(fn):
+        # the mass-weighted mean with the very floats the reader model uses for the guessed masses (no second rounding in the oracle)
+        fr, nm, kd = files[fn]
+        return [z(v) for v in FFileUniverse(fr, nm, kd, READER_WEIGHTS).atoms.center_of_mass()]
+    c1, c2 = com(f"m1.{fmt}"), com(f"m2.{fmt}")
+    for path in eng.explore(body):
+        acc.begin(prover, path)
+        if path.kind == "exc":
+            acc.structural("no_exception", False, detail=repr(path.value) + (path.tb or "")[-600:], cex={"kind": "exception", "exc": type(path.value).__name__})
+            continue
+        if acc.reachable is not True:
+            acc.reach(prover.satisfiable(path.premises))
+        frames = path.value
+        okn = len(frames) == nf and all(idx == k and names == names1 + names2 and tuple(pos.shape) == (n1 + n2, 3) for k, (idx, pos, names) in enumerate(frames))
+        acc.structural("one_frame_per_row_with_the_atoms_of_both_molecules", okn, detail=[(f[0], f[2]) for f in frames])
+        if not okn:
+            continue
+        claims = []
+        for k, (idx, pos, names) in enumerate(frames):
+            Rm = rotation_matrix_terms(grid[k][3:])
+            for a in range(n1):
+                for c in range(3):
+                    claims.append((f"molecule1_is_its_file_geometry_centred[{k},{a},{c}]", z(pos[a, c]) == x1[a][c] - c1[c]))
+            for a in range(n2):
+                for c in range(3):
+                    exp = z3.Sum([Rm[c][d] * (x2[a][d] - c2[d]) for d in range(3)]) + grid[k][c]
+                    claims.append((f"molecule2_is_its_centred_file_geometry_rotated_and_placed[{k},{a},{c}]", z(pos[n1 + a, c]) == exp))
+        acc.add(prover.prove_all(path.premises, claims, max_cex=3))
+    return acc.result(eng.stats, prover.stats)
+
+
+def replay_reader(cex):
+    """the same through real files and real MDAnalysis readers"""
+    import contextlib, io, os, tempfile, warnings
+    import molgri.molecules.pts as P
+    import molgri.io as IO
+    shape = cex["shape"]
+    model = cex.get("model", {}) or {}
+    rng = np.random.default_rng(13)
+    n1, n2, nf, fmt = shape["n1"], shape["n2"], shape["frames"], shape["fmt"]
+    g = lambda nm, d: fval(model, nm, d)
+    bad = []
+    d = tempfile.mkdtemp(prefix="c10_reader_")
+    try:
+        for trial in range(3):
+            use = model if trial == 0 else {}
+            gg = lambda nm, dflt: fval(use, nm, dflt)
+            x1 = np.round(np.clip(np.array([[gg(f"s{a}_{c}", float(rng.normal() * 2 + 4)) for c in range(3)] for a in range(n1)]), -40, 40), 2)
+            x2 = np.round(np.clip(np.array([[gg(f"m{a}_{c}", float(rng.normal() * 2 - 3)) for c in range(3)] for a in range(n2)]), -40, 40), 2)
+            grid = np.array([[gg(f"g{k}_{c}", float(rng.normal())) for c in range(7)] for k in range(nf)])
+            grid[:, :3] = np.clip(grid[:, :3], -40, 40)
+            for k in range(nf):
+                if np.linalg.norm(grid[k, 3:]) < 1e-3 or np.abs(grid[k, 3:]).max() > 1e3:
+                    grid[k, 3:] = [0.1, 0.2, 0.3, 0.9]
+            files = _reader_files(shape, x1, x2, float)
+            for fn, (frames, names, kind) in files.items():
+                (write_xyz if fmt == "xyz" else (lambda p_, fr, nm: write_gro(p_, fr[0], nm)))(os.path.join(d, fn), np.array(frames, dtype=float), names)
+            names1, names2 = files[f"m1.{fmt}"][1], files[f"m2.{fmt}"][1]
+            m1, m2 = np.array([FILE_MASSES[nm] for nm in names1]), np.array([FILE_MASSES[nm] for nm in names2])
+            try:
+                with warnings.catch_warnings(), contextlib.redirect_stdout(io.StringIO()):
+                    warnings.simplefilter("ignore")
+                    mol1 = IO.OneMoleculeReader(os.path.join(d, f"m1.{fmt}")).get_molecule()
+                    mol2 = IO.OneMoleculeReader(os.path.join(d, f"m2.{fmt}")).get_molecule()
+                    frames = [(i, u.atoms.positions.copy()) for i, u in P.Pseudotrajectory(mol1, mol2, grid).generate_pseudotrajectory()]
+            except Exception as e:  # noqa: BLE001
+                return {"reproduced": True, "detail": f"raised {e!r}"}
+            c1, c2 = (m1[:, None] * x1).sum(axis=0) / m1.sum(), (m2[:, None] * x2).sum(axis=0) / m2.sum()
+            tol = 5e-3 * max(1.0, np.abs(x1).max(), np.abs(x2).max(), np.abs(grid[:, :3]).max())
+            if len(frames) != nf:
+                bad.append(f"{len(frames)} frames for {nf} rows")
+                continue
+            for k in range(nf):
+                Rm = np.array(rotation_matrix_terms(list(grid[k, 3:])), dtype=float)
+                exp = np.vstack([x1 - c1, (x2 - c2) @ Rm.T + grid[k, :3]])
+                if frames[k][1].shape != exp.shape or not np.allclose(frames[k][1], exp, atol=tol):
+                    off = float(np.abs(frames[k][1] - exp).max()) if frames[k][1].shape == exp.shape else float("nan")
+                    bad.append(f"{fmt} files (molecule 1 at {x1.tolist()}, molecule 2 at {x2.tolist()}), row {k}: atoms are off by up to {off:.3f} A from the prescribed placement of the centred molecules")
+                    break
+    finally:
+        for f_ in os.listdir(d):
+            os.remove(os.path.join(d, f_))
+        os.rmdir(d)
+    return {"reproduced": bool(bad), "detail": str(bad[:2])}
 
 
 def _universe_history(P, u1, u2, grid, shift):
@@ -304,6 +441,8 @@ def replay(cex):
         warnings.simplefilter("ignore")
         if shape["kind"] == "rotation_lemma":
             return {"reproduced": False, "detail": "lemma about the oracle's closed form, no code involved"}
+        if shape["kind"] == "reader":
+            return replay_reader(cex)
         if shape["kind"] == "center":
             import molgri.io as IO
             w = object.__new__(IO.TwoMoleculeWriter)
@@ -384,4 +523,4 @@ def finding_key(cex):
 
 
 def selftest(seed):
-    return models_selftest(seed, rounds=4)
+    return models_selftest(seed, rounds=4) + file_universe_selftest(seed)
